@@ -440,6 +440,10 @@ class Style:
         r = self.rng
         body = r.choice(['c', 'synopsys translate_off', 'wire [3:0] fake;', 'assign z = a;', '', 'x * y', 'a ( b )', '**', 'endmodule', 'q[3]'])
         k = r.random()
+        if k < 0.15:
+            # star runs next to the delimiters (banners, doxygen style, empty comments / attributes)
+            return r.choice(['/***/', '/****/', '/*****/', '/** ' + body + ' **/', '/* ' + body + ' ***/', '/**' + body + '*/', '/*' + '*' * r.randint(1, 12) + '*/',
+                             '(***)', '(** ' + body.replace('*)', '') + ' **)', '(*' + '*' * r.randint(1, 6) + '*)', '/* * / */', '(* * ) *)'])
         if k < 0.4:
             return '/* ' + body + ' */'
         if k < 0.7:
